@@ -290,6 +290,7 @@ def run_graph(ctx, gd, rng, K):
 
 
 def run_shard(ctx):
+    gg.ALLOW_ODD = True  # node names that are not Python identifiers are node names like any other
     install()
     rng = ctx.rng
     K = {"quick": 2, "thorough": 3}[ctx.tier]
